@@ -8,7 +8,7 @@ use serde_json::{json, Value};
 
 const NAME_CHARS: [&str; 8] = ["a", "b", "Z", "_", "1", "é", ":", "-"];
 // includes characters that look like white space but are not (U+FEFF, U+200B) and one that is (U+00A0)
-const ARG_CHARS: [&str; 19] = ["a", "b", " ", "#", "\"", "\\", "\n", "\r", "\t", "=", "$", "{", "}", "%", "é", ":", "\u{feff}", "\u{200b}", "\u{a0}"];
+const ARG_CHARS: [&str; 21] = ["'", "`", "a", "b", " ", "#", "\"", "\\", "\n", "\r", "\t", "=", "$", "{", "}", "%", "é", ":", "\u{feff}", "\u{200b}", "\u{a0}"];
 
 fn gen_name(r: &mut Rng, first_ok: bool) -> String {
     loop {
@@ -47,7 +47,8 @@ pub fn gen(r: &mut Rng) -> Value {
             json!({"kind": "random", "text": s})
         }
         1 | 2 => {
-            let bad = ["x \"abc", "x \"a\\q\"", "x a\\", "\"lbl", ":\"l x", "o\\ut = x", "out = \"cmd\"", "!", "!nope x", "x \\$a", "a\\b = x", "!  ", "!Print x", "x \"a\\", ":l \"o = x"];
+            let bad = ["x \"abc", "x \"a\\q\"", "x a\\", "\"lbl", ":\"l x", "o\\ut = x", "out = \"cmd\"", "!", "!nope x", "x \\$a", "a\\b = x", "!  ", "!Print x", "x \"a\\", ":l \"o = x",
+                "!print \"abc", "!print a\\q", "!include_files \"x", "!print x \\$a", "!print a\\"];
             let n_before = r.below(3);
             let lead = ["", "", " ", "\t", "   ", " \t "];
             let eol = ["\n", "\n", "\r\n"];
@@ -173,8 +174,8 @@ pub fn run(input: &Value) -> Option<Value> {
                 }
             };
             let expect = match bad {
-                "x \"abc" => "MissingEndQuotes",
-                "x \"a\\q\"" | "x a\\" | "x \\$a" | "x \"a\\" => "ControlWithoutValidValue",
+                "x \"abc" | "!print \"abc" | "!include_files \"x" => "MissingEndQuotes",
+                "x \"a\\q\"" | "x a\\" | "x \\$a" | "x \"a\\" | "!print a\\q" | "!print x \\$a" | "!print a\\" => "ControlWithoutValidValue",
                 "\"lbl" | ":\"l x" | "out = \"cmd\"" | ":l \"o = x" => "InvalidQuotesLocation",
                 "o\\ut = x" | "a\\b = x" => "InvalidControlLocation",
                 "!" | "!  " => "PreProcessNoCommandFound",
